@@ -16,7 +16,9 @@ RULE = ("random prior rankings over 1-4 atoms (zero, random, sparse) x 1-4 revis
         "conditional, gamma- Pareto-minimal by the exact box test when gamma+ = 0); a None result is confronted with an exhaustive search of "
         "the cube [0..3]^k; the three compilations (reference, fast, incremental) are compared as multisets; incremental models are driven "
         "through random add/remove sequences and compared with a fresh compilation; non-trivial = >= 2 conditionals and (non-zero prior or "
-        "compound formula); distinct by (prior, conditionals, mode)")
+        "compound formula); distinct by (prior, conditionals, mode); for bases of <= 3 conditionals c_revision_pareto_front (gamma+ = 0, at most 40 "
+        "solutions) is enumerated as well: every vector must be accepted and Pareto-minimal by the driver, no vector twice, and the vector "
+        "c_revision itself returns must be among them")
 ASSUMPTIONS = ["'returns nothing only if no parameters exist' is decided inside the cube [0..3]^k (and [0..2]^2k when gamma+ is free)"]
 
 CUBE = 3
@@ -41,7 +43,7 @@ def mk_conds(names, R):
 
 
 def impl_eval(case):
-    from inference.c_revision import c_revision, compile_alt, compile_alt_fast
+    from inference.c_revision import c_revision, c_revision_pareto_front, compile_alt, compile_alt_fast
     from inference.c_revision_model import CRevisionModel
     from inference.preocf import PreOCF
 
@@ -92,6 +94,13 @@ def impl_eval(case):
                 except Exception as e:  # noqa: BLE001
                     res.append(("err", f"{type(e).__name__}: {e}"[:200]))
             out["results"] = res
+            # the enumerated Pareto front (gamma+ = 0, nothing fixed), bounded
+            if case.get("front"):
+                try:
+                    fr = c_revision_pareto_front(prior, conds, gamma_plus_zero=True, max_solutions=FRONT_MAX)
+                    out["front"] = ("ok", [[int(sol.get(f"gamma-_{k}", -1)) for k, _, _ in case["conds"]] for sol in fr])
+                except Exception as e:  # noqa: BLE001
+                    out["front"] = ("err", f"{type(e).__name__}: {e}"[:200])
     except Exception as e:  # noqa: BLE001
         out["err"] = f"{type(e).__name__}: {e}"[:200]
     return out
@@ -119,7 +128,17 @@ def driver_lines(case, impl):
         if all(x >= 0 for x in gp + gm):
             lines.append(f"crev {n} {rk} {R} " + " ".join(map(str, gp)) + " " + " ".join(map(str, gm)))
             tags.append(("check", mi))
+    fr = impl.get("front")
+    if fr and fr[0] == "ok":
+        zeros = " ".join("0" for _ in case["conds"])
+        for j, gm in enumerate(fr[1]):
+            if all(x >= 0 for x in gm):
+                lines.append(f"crev {n} {rk} {R} {zeros} " + " ".join(map(str, gm)))
+                tags.append(("front", j))
     return lines, tags
+
+
+FRONT_MAX = 40
 
 
 def compare(case, impl, resp, tags):
@@ -148,6 +167,34 @@ def compare(case, impl, resp, tags):
             if got != want:
                 fail("incremental model after an add/remove sequence differs from a fresh compilation", {"step": i, "got": got}, want)
                 break
+    # enumerated front: every vector accepted and Pareto-minimal, no vector twice, consistent with c_revision itself
+    fr = impl.get("front")
+    if fr:
+        if fr[0] == "err":
+            fail("Pareto front enumeration raised " + fr[1].split(":")[0], fr[1], "a list of vectors")
+        else:
+            vecs = [tuple(v) for v in fr[1]]
+            if len(set(vecs)) != len(vecs):
+                fail("Pareto front contains a vector twice", vecs, "distinct vectors")
+            for (kind, j), r in zip(tags, resp):
+                if kind != "front":
+                    continue
+                ok, per, pareto, _r = r.split("|")
+                if ok != "1":
+                    fail("Pareto front contains parameters whose revised ranking does not accept every revision conditional", list(vecs[j]), per)
+                    break
+                if pareto != "1":
+                    fail("Pareto front contains a vector that is not Pareto-minimal", list(vecs[j]), "a smaller vector works")
+                    break
+            r0 = impl.get("results", [None])[0]
+            if r0 and r0[0] == "ok" and case["modes"] and case["modes"][0] == {"gpz": True}:
+                if r0[1] is None and vecs:
+                    fail("c_revision returns nothing although the Pareto front is not empty", None, vecs)
+                elif r0[1] is not None:
+                    gm0 = tuple(int(r0[1].get(f"gamma-_{k}", -1)) for k, _, _ in case["conds"])
+                    if len(vecs) < FRONT_MAX and gm0 not in vecs:
+                        fail("the vector c_revision returns is missing from the enumerated Pareto front", vecs, list(gm0))
+    tags, resp = [t for t in tags if t[0] != "front"], [r for t, r in zip(tags, resp) if t[0] != "front"]
     byi = {t[1]: (t[0], r) for t, r in zip(tags, resp)}
     for mi, (mode, res) in enumerate(zip(case["modes"], impl.get("results", []))):
         label = ("gamma+ = 0" if mode["gpz"] else "gamma+ free") + (", fixed values" if mode.get("fixed_minus") or mode.get("fixed_plus") else "") + \
@@ -274,7 +321,8 @@ def gen_case(rng):
     hist = []
     for _ in range(rng.randint(2, 7)):
         hist.append(["add" if rng.random() < 0.65 else "remove", rng.choice(pool_keys)])
-    return {"n": n, "ranks": ranks, "conds": conds, "modes": modes, "pool": pool, "history": hist}
+    return {"n": n, "ranks": ranks, "conds": conds, "modes": modes, "pool": pool, "history": hist,
+            "front": len(conds) <= 3 and rng.random() < 0.6}
 
 
 def run(ctx):
